@@ -305,6 +305,10 @@ def apply_op(geo, op):
         other = mg.mulgrid().rectangular([10.0], [10.0], th, origin=[0.0, 0.0, geo.layerlist[0].bottom],
                                          convention=geo.convention)       # layer names must honour the same convention
         geo.copy_layers_from(other)
+        # the donor geometry goes on living: whatever is done to IT afterwards must not reach the geometry that
+        # copied its layers (the invariants are then evaluated on `geo`)
+        other.translate(np.array([0.0, 0.0, -13.0]))
+        other.rename_layer(other.layerlist[-1].name, 'zq'[:len(other.layerlist[-1].name)].rjust(len(other.layerlist[-1].name)))
     elif k == 'set_convention':
         geo.convention = op[1]
     elif k == 'set_atmosphere_type':
